@@ -131,17 +131,17 @@ def check_basic(cls, x, cfg, NFFT, sampling, cplx, route='fresh'):
     return bad, p
 
 
-def tone_data(N, nfft, k, cplx, noise, seed):
+def tone_data(N, nfft, k, cplx, noise, seed, offset=0.0):
     r = np.random.default_rng(seed)
     n = np.arange(N)
     if cplx:
-        return np.exp(2j * np.pi * k * n / nfft) + noise * (r.standard_normal(N) + 1j * r.standard_normal(N))
-    return np.cos(2 * np.pi * k * n / nfft + 0.3) + noise * r.standard_normal(N)
+        return np.exp(2j * np.pi * k * n / nfft) + noise * (r.standard_normal(N) + 1j * r.standard_normal(N)) + offset * (1 + 0.25j)
+    return np.cos(2 * np.pi * k * n / nfft + 0.3) + noise * r.standard_normal(N) + offset
 
 
-def check_tone(cls, cfg, N, NFFT, sampling, k, cplx, noise, seed):
+def check_tone(cls, cfg, N, NFFT, sampling, k, cplx, noise, seed, offset=0.0):
     nfft = resolve_nfft(NFFT, N)
-    x = tone_data(N, nfft, k, cplx, noise, seed)
+    x = tone_data(N, nfft, k, cplx, noise, seed, offset)
     bad, p = check_basic(cls, x, cfg, NFFT, sampling, cplx, E.route_for(x, cls, 'tone')[0])
     if bad or cls == 'pma':
         return bad
@@ -153,7 +153,7 @@ def check_tone(cls, cfg, N, NFFT, sampling, k, cplx, noise, seed):
     else:
         kk = k % nfft; kk = min(kk, nfft - kk)
         d = abs(f[j] - kk * sampling / nfft) / (sampling / nfft)
-    tol = allowed_bins(cls, cfg, N, nfft, cplx)
+    tol = allowed_bins(cls, cfg, N, nfft, cplx) + (1 if offset else 0)      # (leakage of the smaller constant component may tilt the main lobe by a bin)
     if d > tol + 1e-6:
         bad.append(('tone', 'maximum at reported frequency %.6g (entry %d), tone at bin %d of NFFT=%d: %.1f bins away, allowed %d' % (f[j], j, k, nfft, d, tol)))
     return bad
@@ -202,7 +202,7 @@ def replay(rep):
     r = rep['replay']
     try:
         if r['what'] == 'tone':
-            return not check_tone(r['estimator'], r['cfg'], r['N'], r['NFFT'], r['sampling'], r['k'], r['datatype'] == 'complex', r['noise'], r['seed'])
+            return not check_tone(r['estimator'], r['cfg'], r['N'], r['NFFT'], r['sampling'], r['k'], r['datatype'] == 'complex', r['noise'], r['seed'], r.get('offset', 0.0))
         if r['what'] == 'sinusoid':
             return not check_sinusoid_exact(r['N'], r['k'], r['sampling'])
         if r['what'] == 'range':
@@ -319,6 +319,24 @@ def run(ctx):
             bad = [('raises', 'raised %s: %s' % (type(e).__name__, str(e)[:100]))]
         for clause, what in bad:
             ctx.violation('%s/%s/%s' % (clause, cls, tag), '%s (%s data, NFFT=%s): %s' % (cls, tag, NFFT, what), rep)
+
+    # ---------------- a dominant complex exponential PLUS a smaller constant component, for every named window and both detrend settings of the
+    # Fourier classes: the maximum stays at the tone (a constant is another, weaker, exponential at f = 0)
+    for wi, wname in enumerate(E.ALL_WINDOWS):
+        for di, dt in enumerate((None, 'mean')):
+            cls = 'Periodogram'; N = 32 + (wi % 9); NFFT = [None, 2 * N, N + 5][(wi + di) % 3]; nfft = resolve_nfft(NFFT, N)
+            k = (nfft // 3) * (1 if wi % 2 else -1); cfg = {'window': wname, 'detrend': dt}; sampling = [1.0, 1024.0][di]
+            ctx.count('tone+constant/%s' % cls)
+            ctx.case(('tone+const', cls, wname, dt, N, str(NFFT), k), nontrivial=True,
+                     sample={'clause': 'tone + smaller constant', 'estimator': cls, 'cfg': cfg, 'N': N, 'NFFT': NFFT, 'bin': k} if wi == 9 else None)
+            rep = {'what': 'tone', 'estimator': cls, 'cfg': cfg, 'N': N, 'NFFT': NFFT, 'sampling': sampling, 'k': k, 'datatype': 'complex', 'noise': 1e-3, 'seed': wi,
+                   'offset': 0.6}
+            try:
+                bad = check_tone(cls, cfg, N, NFFT, sampling, k, True, 1e-3, wi, 0.6)
+            except Exception as e:
+                bad = [('raises', 'raised %s: %s' % (type(e).__name__, str(e)[:100]))]
+            for clause, what in bad:
+                ctx.violation('%s/%s/complex/window_%s' % (clause, cls, wname), '%s (window %r, detrend=%r, tone + constant 0.6): %s' % (cls, wname, dt, what), rep)
 
     # ---------------- tone location on the reported axis
     for it in range(ctx.q(40, 3000) * len(E.CLASSES)):
